@@ -7,6 +7,7 @@
      missing number stated by the missing-data warning (-1 if absent)
      rows    text table rows  [ln, pp: <<port index, d, n>>.., cp: <<d, n>>, lcd: <<d, n>>, x]
      dk      dict Kernel entries [ln, pp: <<port index, units>>.. (non-zero only), cp, lcd, unk]
+     madeup  line numbers whose mnemonic is one no instruction set has (unknown by construction)
      tot     text totals row [pp, cp, lcd] (if block Totals);  sum: dict Summary [pp, cp, lcd]
      lcdlist text LCD list [root, lat: <<d, n>>, mem];  lcds: recorded LCDs [lat, mem, lats]
    The set of failing clauses is printed; names starting with "B:" are Level-B (shape of the
@@ -46,6 +47,8 @@ Fails(c) ==
            /\ (("LCDWarning" \in W) <=> ("LcdWarn" \in bs)) /\ (("UnknownInstrWarning" \in W) <=> (unk > 0))
         THEN {} ELSE {"warnings-agree"})
   \cup (IF ("MissingWarn" \in bs) => c.missing = unk THEN {} ELSE {"missing-count"})
+  \* a line whose mnemonic no instruction set has lacks performance data by construction
+  \cup (IF \A i \in DOMAIN c.dk : (c.dk[i].ln \in ToSet(c.madeup)) => c.dk[i].unk THEN {} ELSE {"made-up-mnemonic-not-unknown"})
   \cup (IF ~rowsMatch THEN {"rows"} ELSE
           (IF \A i \in N : PPShownOK(c.rows[i].pp, c.dk[i].pp) THEN {} ELSE {"cell:pp"})
      \cup (IF \A i \in N : PPBlankOK(c.rows[i].pp, c.dk[i].pp) THEN {} ELSE {"cell:pp-blank"})
